@@ -393,8 +393,10 @@ func runnerMain(t *testing.T) {
 					code = ee.ExitCode()
 				}
 				if strings.Contains(se.String(), "HARNESS-PANIC") || (code == 2 && !hang && !strings.Contains(se.String(), "fatal error") && !strings.Contains(se.String(), "goroutine ")) {
-					fmt.Fprintf(os.Stderr, "harness error in worker %d:\n%s\n", i, tail(se.String(), 4000))
 					mu.Lock()
+					if !harnessErr {
+						fmt.Fprintf(os.Stderr, "harness error in worker %d:\n%s\n", i, tail(se.String(), 3000))
+					}
 					harnessErr = true
 					mu.Unlock()
 					return
@@ -483,7 +485,9 @@ func runnerMain(t *testing.T) {
 				os.Exit(2)
 			}
 		}
-		fmt.Printf("violation: rule=%s shape=%s steps=%d (from %d)\n  %s\n", tr.Viol.Rule, key, len(tr.Steps), tr.OrigLen, firstLine(tr.Viol.Detail))
+		if nv <= 8 {
+			fmt.Printf("violation: rule=%s shape=%s steps=%d (from %d)\n  %s\n", tr.Viol.Rule, key, len(tr.Steps), tr.OrigLen, firstLine(tr.Viol.Detail))
+		}
 		fmt.Printf("VIOLATION property=%s replay=%s\n", pid, path)
 		exit = 1
 	}
